@@ -35,7 +35,19 @@ def main():
     threading.Thread(target=guard, daemon=True).start()
     try:
         if args.replay:
-            sys.exit(mod.replay(args.replay))
+            # 1. show the record (and whatever case-specific re-evaluation the property's module offers);
+            # 2. re-execute the check with the recorded seed and tier against the current tree and report whether the
+            #    recorded violation is still there (exit 1) or not (exit 0); nothing is written
+            import json
+            import common
+            rp = json.load(open(args.replay))
+            try:
+                mod.replay(args.replay)
+            except Exception as e:  # noqa
+                print('(case-specific replay helper failed: %r)' % e)
+            common.REPLAY_OF = rp
+            print('--- re-executing %s tier=%s seed=%s against the current tree' % (prop, rp.get('tier', 'quick'), rp.get('seed', 1)))
+            sys.exit(mod.run(rp.get('tier', 'quick'), int(rp.get('seed', 1))))
         sys.exit(mod.run(args.tier, seed))
     except SystemExit:
         raise
